@@ -140,6 +140,16 @@ CHECKS["C18"] = {
             "subscripted rather than dereferenced as one object. Does not decide any statistical rate or the p-value arithmetic.",
     "note": "system loops are recognised by a bound depending on vn_systems; per-equation vectors by an allocation depending on vn_equations",
 }
+CHECKS["C01"] = {
+    "technique": "static evaluation of the integer index skeleton of every equation-term builder (clang AST; no floating point, no library code run) against the expansion of the documented M/S matrix equation at _vnacal_layout's offsets; sibling port-map and accumulator-pair agreement rules; must-check of solver results",
+    "text": "Decides the layout/term-structure clause only: for all 8 in-system types and every shape with rows, columns <= 4 (a unisolvent set for the quadratic index maps, so "
+            "all shapes) the (column, sign, M cell, S cell, V cell) arguments of every add_term call are exactly the expansion of -Ts S V - Ti V + M Tx S V + M Tm V = 0 "
+            "(or the U form) at the offsets stored by _vnacal_layout with the unity term of _vl_unity_offset moved to the right-hand side; a term is dropped exactly for "
+            "its own zero S cell or unconnected V cell; every unknown is used; e_vector assembly inverts the unity removal; row and column of a cell are mapped "
+            "through the same port map; the leakage sum and its divisor are accumulated under the same tests; every LU/QR result is checked. Does not decide "
+            "numerical recovery of S, conditioning, the fill_* arithmetic of vnacal_apply or the saved error terms' values.",
+    "note": "the matrix equation and sub-matrix shapes are transcribed from vnacal_layout.h; offsets and the unity position are read from the code on every run",
+}
 NOT_APPLICABLE = {
     "C14": "YAML fidelity of arbitrary scalars/keys depends on libyaml's emitter/scanner behaviour on run-time strings; no clause is visible in libvna's source shape (DESIGN.md section 3, C14)",
 }
